@@ -276,7 +276,18 @@ func registerConstModel(e *Engine) {
 				}
 				return &IfaceV{T: constFloatT, V: IntT64(0)}
 			}
-			st.unsupported("constant.BinaryOp %s on Int (bitwise operators on unbounded integers are outside the model)", op)
+			if op == token.AND || op == token.OR || op == token.XOR || op == token.AND_NOT {
+				// bitwise operators: modelled for operands in [0, 2^64) (two's complement of
+				// unbounded negative integers is outside the model)
+				lo, hi := intRange(64, false)
+				inRange := And(IntLe(IntT(lo), xt), IntLe(xt, IntT(hi)), IntLe(IntT(lo), yt), IntLe(yt, IntT(hi)))
+				if !st.Branch(inRange) {
+					st.unsupported("constant.BinaryOp %s on integers outside [0, 2^64)", op)
+				}
+				r := st.intBinopInt(op, xt, yt, 64, false, types.Typ[types.Uint64]).(*Term)
+				return mkConstInt(r)
+			}
+			st.unsupported("constant.BinaryOp %s on Int", op)
 		case ckString:
 			if op == token.ADD {
 				return &IfaceV{T: constStrT, V: StrConcat(x.V.(*Term), y.V.(*Term))}
